@@ -775,3 +775,11 @@ func (c *Ctx) constLE(k int64, v ssa.Value, b *ssa.BasicBlock) bool {
 	}
 	return false
 }
+
+// boundsProver: the shared bounds prover (built on first use).
+func (c *Ctx) boundsProver() *boundProver {
+	if c.boundsP == nil {
+		c.boundsP = c.newBoundProver()
+	}
+	return c.boundsP
+}
